@@ -303,6 +303,10 @@ func missErrFunc(c *Ctx, fr *frame, done map[*ssa.Function]bool, whole bool) {
 					}
 					break
 				}
+				if src, isCopy := copyOf(y); isCopy {
+					slice(src, d+1, below) // a complete private copy: exactly the bytes
+					break
+				}
 				if !below {
 					// a local bytes.Buffer filled by one copy: the copy is the read
 					if fill, kind := bufferFill(y); fill != nil {
@@ -348,7 +352,11 @@ func missErrFunc(c *Ctx, fr *frame, done map[*ssa.Function]bool, whole bool) {
 				slice(y.X, d+1, below)
 			case *ssa.Phi:
 				und = append(und, "returned data is a φ of several sources")
-			case *ssa.Const, *ssa.Parameter, *ssa.Alloc, *ssa.MakeSlice, *ssa.Global, *ssa.FreeVar, *ssa.MakeMap:
+			case *ssa.MakeSlice:
+				if src, isCopy := copyOf(y); isCopy {
+					slice(src, d+1, below)
+				}
+			case *ssa.Const, *ssa.Parameter, *ssa.Alloc, *ssa.Global, *ssa.FreeVar, *ssa.MakeMap:
 			default:
 				und = append(und, fmt.Sprintf("returned data flows through %T", y))
 			}
@@ -758,6 +766,14 @@ func runCTORVERBATIM(c *Ctx) {
 					c.OK(P.InstrPos(s), what, "stored verbatim from parameter "+p.Name(), false)
 					continue
 				}
+				// a directory path may be stored in its absolute form: the same directory, named
+				// independently of the working directory (only for the file store's path fields)
+				if b.pkg == ir.FilePath {
+					if p, ok := absOfParam(v, s); ok && p.Parent() == fn {
+						c.OK(P.InstrPos(s), what, "stored as filepath.Abs("+p.Name()+") where that succeeds, else verbatim: the same directory", false)
+						continue
+					}
+				}
 				c.Violation(fn, P.InstrPos(s), "configuration field "+field+" not stored verbatim",
 					fmt.Sprintf("%s stores %s into %s.%s instead of its parameter unchanged: the object names Load/Store use differ from what the caller configured (nodes written under the configured name are no longer found)", ir.FuncName(fn), descValue(v), b.named.Obj().Name(), field))
 			}
@@ -793,6 +809,15 @@ type prefixCheck struct {
 	srcs  int // identity sources reached: configuration parameters, a process-unique id, a wrapped store's prefix
 	notes []string
 	addr  []string // the identity is a memory address
+	// helpers being followed: their parameters stand for the arguments of the call
+	bind   map[*ssa.Parameter]prefixArg
+	inCall map[*ssa.Function]bool
+	exIdx  int // result position selected by the enclosing Extract
+}
+
+type prefixArg struct {
+	v  ssa.Value
+	ri *recvInfo
 }
 
 // sprintfVerbsOK: only verbs that print their operand completely.
@@ -826,6 +851,10 @@ func (pc *prefixCheck) value(v ssa.Value, ri *recvInfo, d int) {
 	case *ssa.Const:
 		return
 	case *ssa.Parameter:
+		if a, ok := pc.bind[x]; ok {
+			pc.value(a.v, a.ri, d+1)
+			return
+		}
 		if ri != nil && x == ri.param {
 			// the receiver itself: only its address can flow into a string
 			if _, isPtr := x.Type().Underlying().(*types.Pointer); isPtr {
@@ -870,11 +899,12 @@ func (pc *prefixCheck) value(v ssa.Value, ri *recvInfo, d int) {
 		}
 		pc.und = append(pc.und, "field of "+ir.Sym(x.X))
 	case *ssa.Phi:
-		for _, e := range x.Edges {
-			pc.value(e, ri, d+1)
-		}
+		pc.alternatives(x.Edges, ri, d+1, "one of the values merged at a branch")
 	case *ssa.Extract:
+		old := pc.exIdx
+		pc.exIdx = x.Index
 		pc.value(x.Tuple, ri, d+1)
+		pc.exIdx = old
 	case *ssa.Slice:
 		pc.bad = append(pc.bad, "a slice expression (truncation)")
 	case *ssa.Index, *ssa.Lookup, *ssa.IndexAddr:
@@ -957,6 +987,39 @@ func (pc *prefixCheck) value(v ssa.Value, ri *recvInfo, d int) {
 				}
 			}
 		default:
+			// a helper of the repository: the value is whatever its returns compute (followed to depth 2)
+			if h := ir.Callee(x.Call); h != nil && h.Blocks != nil && isOwn(pc.c.P, h) && len(pc.inCall) < maxHelperDepth && !pc.inCall[h] && len(args) == len(h.Params) {
+				idx := 0
+				if h.Signature.Results().Len() > 1 {
+					idx = pc.exIdx
+				}
+				if pc.bind == nil {
+					pc.bind = map[*ssa.Parameter]prefixArg{}
+					pc.inCall = map[*ssa.Function]bool{}
+				}
+				for i, p := range h.Params {
+					pc.bind[p] = prefixArg{args[i], ri}
+				}
+				pc.inCall[h] = true
+				hri := newRecvInfo(h)
+				n := 0
+				var alts []ssa.Value
+				for _, r := range ir.Returns(h) {
+					if idx < len(r.Results) {
+						n++
+						alts = append(alts, r.Results[idx])
+					}
+				}
+				pc.alternatives(alts, hri, d+1, "a return of helper "+h.Name())
+				delete(pc.inCall, h)
+				for _, p := range h.Params {
+					delete(pc.bind, p)
+				}
+				if n == 0 {
+					pc.und = append(pc.und, "helper "+callName(x)+", which never returns")
+				}
+				return
+			}
 			pc.und = append(pc.und, "a call of "+callName(x)+", of which the rule does not know whether it is injective")
 		}
 	case *ssa.Alloc:
@@ -983,8 +1046,35 @@ func (pc *prefixCheck) field(f string) {
 	for _, s := range fieldStoresInMethods(pc.c, pc.b, f) {
 		pc.bad = append(pc.bad, "field "+f+", which "+ir.FuncName(s.Parent())+" reassigns after construction (the identity of a store must not change or be copied)")
 	}
+	before := pc.srcs
+	none := ""
 	for _, s := range stores {
+		b0 := pc.srcs
 		pc.value(s.Val, newRecvInfo(s.Parent()), 0)
+		if pc.srcs == b0 {
+			none = ir.FuncName(s.Parent())
+		}
+	}
+	if pc.srcs > before && none != "" {
+		pc.bad = append(pc.bad, "field "+f+", into which "+none+" stores a value that does not identify the store (a constant)")
+	}
+}
+
+// alternatives: v is one of several values (φ edges, returns of a helper);
+// each of them must identify the store — a constant alternative beside a
+// unique one yields duplicates.
+func (pc *prefixCheck) alternatives(vals []ssa.Value, ri *recvInfo, d int, what string) {
+	before := pc.srcs
+	constAlt := false
+	for _, e := range vals {
+		b0 := pc.srcs
+		pc.value(e, ri, d)
+		if pc.srcs == b0 {
+			constAlt = true
+		}
+	}
+	if pc.srcs > before && constAlt {
+		pc.bad = append(pc.bad, what+" is a constant while another identifies the store: distinct stores can get the same value")
 	}
 }
 
@@ -1083,6 +1173,27 @@ func runPREFIXIDENT(c *Ctx) {
 		if len(rets) == 0 {
 			c.Undecided(pfx, P.Pos(pfx.Pos()), "no return", "NodeURLPrefix never returns")
 			continue
+		}
+		// a directory named by a relative path is a different directory after os.Chdir: the
+		// identity (and what Load/Store address) must be fixed when the store is made
+		if b.pkg == ir.FilePath {
+			for _, field := range configFields(c, b) {
+				for _, s := range fieldStoresOf(c, b, field) {
+					fn := s.Parent()
+					if fn.Signature.Recv() != nil {
+						continue
+					}
+					v := ir.Strip(ir.ResolveCell(s.Val))
+					if p, isParam := v.(*ssa.Parameter); isParam && p.Parent() == fn && absFailedAt(p, s) {
+						c.OK(P.InstrPos(s), "base path of "+b.String()+" (fallback)", "the parameter is kept only where filepath.Abs("+p.Name()+") failed", true)
+					} else if isParam && p.Parent() == fn {
+						c.Violation(fn, P.InstrPos(s), "base path not resolved: it names a different directory after a change of working directory",
+							fmt.Sprintf("%s stores its %s parameter as given: a relative path (or \"\") is resolved again at every Load/Store/CreateTemp, so after os.Chdir the store reads another directory than it wrote, NodeURLPrefix names a different directory to a shared NodeCache, and an empty path sends the temp file to the system temp directory", ir.FuncName(fn), p.Name()))
+					} else if p, ok := absOfParam(v, s); ok {
+						c.OK(P.InstrPos(s), "base path of "+b.String()+" fixed at construction", "filepath.Abs("+p.Name()+") is stored (the parameter itself only if Abs fails)", false)
+					}
+				}
+			}
 		}
 		ri := newRecvInfo(pfx)
 		for _, r := range rets {
@@ -1221,10 +1332,10 @@ func runREADWHOLE(c *Ctx) {
 			switch {
 			case !isRootParam(mu.Key, fr, 2):
 				c.Violation(fr.fn, P.InstrPos(mu), "stored under something other than the name", "Store keeps the node under "+descFval(expand(mu.Key, fr))+" instead of its name parameter")
-			case !isRootParam(mu.Value, fr, 3):
+			case !isRootParam(mu.Value, fr, 3) && !copyOfRootParam(mu.Value, fr, 3):
 				c.Violation(fr.fn, P.InstrPos(mu), "stored value is not the bytes parameter", "Store keeps "+descFval(expand(mu.Value, fr))+" instead of exactly its bytes parameter: a later Load cannot return the complete content")
 			default:
-				c.OK(P.InstrPos(mu), what, "the bytes parameter itself is kept under the name parameter", false)
+				c.OK(P.InstrPos(mu), what, "the complete bytes parameter (or a complete copy of it) is kept under the name parameter", false)
 			}
 		})
 	}
@@ -1398,4 +1509,230 @@ func wholeCopy(c *Ctx, fill *ssa.Call, kind string, fr *frame) (bad, und, ok []s
 		return wholeReader(c, fill.Call.Args[1], fr, 0)
 	}
 	return nil, []string{"the buffer is filled by " + callName(fill)}, nil
+}
+
+// copyOfRootParam: v is a complete copy of parameter #idx of the root method.
+func copyOfRootParam(v ssa.Value, fr *frame, idx int) bool {
+	x := expand(v, fr)
+	src, ok := copyOf(x.v)
+	return ok && isRootParam(src, x.fr, idx)
+}
+
+// absOfParam: v (stored by store instruction st) is the absolute form of a
+// parameter p and nothing else: result #0 of filepath.Abs(p) on the edge on
+// which its error is nil, else p itself.
+func absOfParam(v ssa.Value, st ssa.Instruction) (*ssa.Parameter, bool) {
+	absResult := func(x ssa.Value) (*ssa.Parameter, *ssa.Call) {
+		ex, ok := x.(*ssa.Extract)
+		if !ok || ex.Index != 0 {
+			return nil, nil
+		}
+		call, ok := ex.Tuple.(*ssa.Call)
+		if !ok || staticID(call) != "path/filepath.Abs" || len(call.Call.Args) != 1 {
+			return nil, nil
+		}
+		p, _ := ir.Strip(call.Call.Args[0]).(*ssa.Parameter)
+		return p, call
+	}
+	errNilAt := func(b *ssa.BasicBlock, call *ssa.Call) bool {
+		e := extractOf(call, 1)
+		if e == nil {
+			return false
+		}
+		for _, f := range ir.FactsAt(b) {
+			if tv, tnn, ok := ir.NilTest(f.Cond); ok && tv == ssa.Value(e) && f.Truth != tnn {
+				return true
+			}
+		}
+		return false
+	}
+	switch x := v.(type) {
+	case *ssa.Extract:
+		if p, call := absResult(x); p != nil && errNilAt(st.Block(), call) {
+			return p, true
+		}
+	case *ssa.Phi:
+		var param *ssa.Parameter
+		nAbs := 0
+		for i, e := range x.Edges {
+			e = ir.Strip(e)
+			if p, ok := e.(*ssa.Parameter); ok {
+				if param != nil && param != p {
+					return nil, false
+				}
+				param = p
+				continue
+			}
+			p, call := absResult(e)
+			if p == nil || (param != nil && param != p) || !errNilAt(x.Block().Preds[i], call) {
+				return nil, false
+			}
+			param = p
+			nAbs++
+		}
+		if param != nil && nAbs > 0 {
+			return param, true
+		}
+	}
+	return nil, false
+}
+
+// ===========================================================================
+// STOREALIAS
+
+func init() {
+	Register(&Rule{
+		ID: "STOREALIAS", Props: []string{"C18"}, Min: 2,
+		Doc: "a backend does not share byte slices with its callers: Store never keeps its bytes parameter (or a reslice of it) in state " +
+			"reachable from the receiver after it returns — only a complete copy — and Load never returns a slice that is (part of) the stored " +
+			"state; otherwise reusing the buffer after Store, or writing into what Load returned, changes the stored node.",
+		Run: runSTOREALIAS,
+	})
+}
+
+// receiverState: addr/map value m (in frame fr) is memory reachable from the
+// root method's receiver: a receiver field, a map or slice loaded from one,
+// or a fresh map that the function also stores into a receiver field.
+func receiverState(v ssa.Value, fr *frame) (string, bool) {
+	x := expand(v, fr)
+	recvField := func(a ssa.Value, f *frame) (string, bool) {
+		if f.recv == nil || !isRootRecv(f) {
+			return "", false
+		}
+		if n, ok := f.recv.fieldOf(a); ok {
+			return n, true
+		}
+		return f.recv.fieldAddrOf(a)
+	}
+	if f, ok := recvField(x.v, x.fr); ok {
+		return f, true
+	}
+	switch y := x.v.(type) {
+	case *ssa.IndexAddr:
+		return receiverState(y.X, x.fr)
+	case *ssa.FieldAddr:
+		return receiverState(y.X, x.fr)
+	case *ssa.MakeMap, *ssa.MakeSlice, *ssa.Alloc:
+		if y.(ssa.Value).Referrers() != nil {
+			for _, r := range *y.(ssa.Value).Referrers() {
+				if st, ok := r.(*ssa.Store); ok && st.Val == x.v {
+					if f, ok := recvField(st.Addr, x.fr); ok {
+						return f, true
+					}
+				}
+			}
+		}
+	}
+	return "", false
+}
+
+func runSTOREALIAS(c *Ctx) {
+	P := c.P
+	for _, b := range backendImpls(c, backendPkgs...) {
+		// ---- Store: the parameter slice must not outlive the call in the receiver's state
+		if len(b.store.Params) >= 4 {
+			kept := 0
+			frameInstrs(rootFrame(P, b.store), func(ins ssa.Instruction, fr *frame) {
+				var val, where ssa.Value
+				switch x := ins.(type) {
+				case *ssa.MapUpdate:
+					val, where = x.Value, x.Map
+				case *ssa.Store:
+					val, where = x.Val, x.Addr
+				default:
+					return
+				}
+				if _, isSlice := val.Type().Underlying().(*types.Slice); !isSlice {
+					return
+				}
+				field, isState := receiverState(where, fr)
+				if !isState {
+					return
+				}
+				x := expand(val, fr)
+				root := expand(sliceRoot(x.v), x.fr)
+				switch {
+				case isRootParam(root.v, root.fr, 3):
+					kept++
+					c.Violation(fr.fn, P.InstrPos(ins), "Store keeps the caller's slice",
+						fmt.Sprintf("%s puts its bytes parameter itself (%s) into %s: the stored node shares its backing array with the caller's buffer, so reusing the buffer after Store changes what a later Load returns", ir.FuncName(b.store), descFval(x), field))
+				default:
+					if src, isCopy := copyOf(root.v); isCopy {
+						kept++
+						c.OK(P.InstrPos(ins), "value kept in "+field+" by "+ir.FuncName(fr.fn), "a private copy ("+descValue(src)+" copied)", false)
+					} else if _, isParam := root.v.(*ssa.Parameter); isParam {
+						c.Undecided(fr.fn, P.InstrPos(ins), "slice kept in "+field, "a slice parameter of a helper that the rule could not trace to Store's parameters is kept in the receiver's state")
+					}
+				}
+			})
+			if kept == 0 {
+				c.OK(P.Pos(b.store.Pos()), "Store of "+b.String(), "keeps no slice in the receiver's state (the bytes are consumed before it returns)", true)
+			}
+		}
+		// ---- Load: the returned slice must not be (part of) the stored state
+		fn := b.load
+		if ir.ErrorResultIndex(fn.Signature) != 1 {
+			continue
+		}
+		srs, ov := successReturns(fn)
+		if ov {
+			c.Undecided(fn, P.Pos(fn.Pos()), "paths", "path exploration exceeded its bound")
+			continue
+		}
+		root := rootFrame(P, fn)
+		seen := map[*ssa.Return]bool{}
+		for _, sr := range srs {
+			if len(sr.vals) != 2 || seen[sr.r] {
+				continue
+			}
+			seen[sr.r] = true
+			x := expand(sr.vals[0], root)
+			base := expand(sliceRoot(x.v), x.fr)
+			if src, isCopy := copyOf(base.v); isCopy {
+				c.OK(P.InstrPos(sr.r), "data returned by "+ir.FuncName(fn), "a private copy of "+descValue(src), false)
+				continue
+			}
+			state := ""
+			switch y := base.v.(type) {
+			case *ssa.Extract:
+				if lk, ok := y.Tuple.(*ssa.Lookup); ok && y.Index == 0 {
+					state, _ = receiverState(lk.X, base.fr)
+				}
+			case *ssa.Lookup:
+				state, _ = receiverState(y.X, base.fr)
+			case *ssa.UnOp:
+				if y.Op == token.MUL {
+					state, _ = receiverState(y.X, base.fr)
+				}
+			}
+			if state != "" {
+				c.Violation(fn, P.InstrPos(sr.r), "Load returns the stored slice itself",
+					fmt.Sprintf("%s hands out the slice held in %s (%s): a caller that writes into the result changes the stored node for every later Load", ir.FuncName(fn), state, descFval(x)))
+			} else {
+				c.OK(P.InstrPos(sr.r), "data returned by "+ir.FuncName(fn), "not part of the receiver's state (freshly read or produced by a callee)", true)
+			}
+		}
+	}
+}
+
+// absFailedAt: instruction st is reached only when filepath.Abs(p) returned a non-nil error.
+func absFailedAt(p *ssa.Parameter, st ssa.Instruction) bool {
+	for _, b := range st.Parent().Blocks {
+		for _, ins := range b.Instrs {
+			call, ok := ins.(*ssa.Call)
+			if !ok || staticID(call) != "path/filepath.Abs" || len(call.Call.Args) != 1 || ir.Strip(call.Call.Args[0]) != ssa.Value(p) {
+				continue
+			}
+			e := extractOf(call, 1)
+			if e == nil {
+				continue
+			}
+			for _, f := range ir.FactsAt(st.Block()) {
+				if tv, tnn, ok := ir.NilTest(f.Cond); ok && tv == ssa.Value(e) && f.Truth == tnn {
+					return true
+				}
+			}
+		}
+	}
+	return false
 }
